@@ -5,6 +5,7 @@
 (* bytewise exactly like Go's bytes.Compare / string comparison.           *)
 (***************************************************************************)
 EXTENDS Naturals, Sequences, FiniteSets
+LOCAL INSTANCE SequencesExt   \* SetToSortSeq (LOCAL: its other names stay out of the modules that extend this one)
 
 Byte == 0..255
 
@@ -31,12 +32,9 @@ IsPrefixB(p, s) == Len(p) <= Len(s) /\ SubSeq(s, 1, Len(p)) = p
 \* the byte string s followed by one zero byte: the immediate successor of s
 Succ0(s) == Append(s, 0)
 
-\* ascending sequence of the members of a finite set of byte strings
-RECURSIVE SortBytes(_)
-SortBytes(S) ==
-  IF S = {} THEN <<>>
-  ELSE LET m == CHOOSE x \in S : \A y \in S : BLe(x, y)
-       IN  <<m>> \o SortBytes(S \ {m})
+\* ascending sequence of the members of a finite set of byte strings (SetToSortSeq: TLC sorts natively; the
+\* recursive selection sort this replaces was cubic and dominated trace validation on tables of 1000 rows)
+SortBytes(S) == SetToSortSeq(S, BLess)
 
 \* first index at which sub occurs in s at or after position from (1-based), 0 if none
 RECURSIVE IndexFrom(_, _, _)
